@@ -23,7 +23,11 @@
    output string predates the cache too (gnew 1).  Such a script call is several calls on the adaptor; each is one line,
    observed by a spy in front of the adaptor: alloc / dealloc (known buffer) / foreign (a pointer the cache did not
    hand out, no call made meanwhile) / wbegin .. wend (a release of such a pointer during which further calls arrived:
-   the lines in between).  `end' closes an execution. *)
+   the lines in between).  `end' closes an execution.
+   xdealloc = release of a buffer the cache handed out (mem = its allocation) with a size n of another class than the one
+   it was requested in: an unknown release too (a wbegin line with mem # 0 when calls arrived meanwhile); the buffer stays
+   in use, so the observations of the later calls (hasfree, which block a request of the named class gets, room) bind
+   that it was not filed as idle anywhere. *)
 EXTENDS StrCache, Json, IOUtils, SequencesExt
 VARIABLE l
 tvars == <<vars, l>>
@@ -41,7 +45,8 @@ TAlloc == IF E.got = <<>>
           ELSE AllocNew(E.n, E.mem, SetOf(E.got) \ {E.mem}, E.room)
 
 ObsOK(lst, fr, lf, sa) ==
-         /\ lst.mem = E.mem /\ lst.warn = E.warn /\ E.cur = sa
+         /\ (lst.mem = E.mem \/ (E.op \in {"xdealloc", "wbegin"} /\ lst.mem = 0))    \* there mem is the argument of the call
+         /\ lst.warn = E.warn /\ E.cur = sa
          /\ (E.nwarn >= 0 => E.nwarn = nwarn' /\ printing' = 0)
          /\ lst.got = SetOf(E.got) /\ NoDup(E.got)
          /\ lst.ret = SetOf(E.ret) /\ NoDup(E.ret)
@@ -60,7 +65,8 @@ TCalls == \/ Is("new") /\ Construct("bare", SetOf(E.got))
           \/ Is("snew") /\ life = "global" /\ E.n > 0 /\ TAlloc
           \/ Is("sdel") /\ life = "global" /\ E.mem \in DOMAIN req /\ E.n = req[E.mem] /\ Dealloc(E.mem, E.n)
           \/ Is("foreign") /\ DeallocUnknown
-          \/ Is("wbegin") /\ WarnBegin
+          \/ Is("xdealloc") /\ DeallocElsewhere(E.mem, E.n)
+          \/ Is("wbegin") /\ (E.mem = 0 \/ ElsewhereSize(E.mem, E.n)) /\ WarnBegin
           \/ Is("wend") /\ WarnEnd
           \/ Is("clearcache") /\ life = "bare" /\ ClearCache
           \/ Is("clearall") /\ life = "bare" /\ ClearAll
